@@ -269,7 +269,74 @@ func c09Run(c *ev.Ctx) {
 // c09ReusedWriter: the same grid through ONE long-lived Writer per option-concurrency class that
 // is Reset and re-configured for every item (so each frame follows frames of other formats and
 // options); every frame must pass the same conformance oracle and equal the fresh Writer's frame.
+// c09OptionChange: one Writer, a frame with block size A (closed, or abandoned after a Write), then
+// Reset + Apply(block size B, other options) and a frame that is longer than both block sizes: the
+// second frame must conform and equal a new Writer's.
+func c09OptionChange(c *ev.Ctx) {
+	sizes := []int{65536, 262144, 1 << 20, 4 << 20}
+	input := inputSpec{300000, "p7"}.build()
+	n := 0
+	for _, a := range sizes {
+		for _, b := range sizes {
+			for _, abandon := range []bool{false, true} {
+				for _, conc := range []int{1, 2} {
+					n++
+					if !c.Mine(int64(n)) {
+						continue
+					}
+					oa := wopts{BS: a, CSum: true, Conc: conc}
+					ob := wopts{BS: b, CSum: true, BSum: n%2 == 0, Conc: conc}
+					var got []byte
+					var err error
+					func() {
+						defer func() {
+							if r := recover(); r != nil {
+								err = fmt.Errorf("panic: %v", r)
+							}
+						}()
+						w := lz4.NewWriter(&countSink{})
+						if err = w.Apply(oa.options(len(input))...); err != nil {
+							return
+						}
+						w.Write(input[:100000])
+						if !abandon {
+							w.Close()
+						}
+						sink := &countSink{}
+						w.Reset(sink)
+						if err = w.Apply(ob.options(len(input))...); err != nil {
+							return
+						}
+						if _, err = w.Write(input); err != nil {
+							return
+						}
+						err = w.Close()
+						got = sink.buf.Bytes()
+					}()
+					c.Eval(1)
+					c.Distinct(1)
+					c.Add("option_change_frames", 1)
+					it := corpusItem{ob, inputSpec{300000, "p7"}, delivery{Kind: "write"}}
+					what := fmt.Sprintf("first frame bs=%d abandoned=%v, second %s", a, abandon, ob)
+					if err != nil {
+						c.Report(&ev.Finding{Sig: fmt.Sprintf("reused Writer fails after a block-size change (abandoned=%v): %s", abandon, errShort(err)), What: what, Case: c02Case{Item: it}})
+						continue
+					}
+					if sig, w2 := conformance(ob, input, got, "reused Writer"); sig != "" {
+						c.Report(&ev.Finding{Sig: sig + " (after a block-size change)", What: w2 + "; " + what, Case: c02Case{Item: it}})
+						continue
+					}
+					if fresh, ferr := produceFrame(ob, input, delivery{Kind: "write"}); ferr == nil && !bytes.Equal(fresh, got) {
+						c.Report(&ev.Finding{Sig: fmt.Sprintf("a Writer reused through Reset emits other bytes than a new Writer with the same options (block-size change, abandoned=%v)", abandon), What: describeDiff(got, fresh) + "; " + what, Case: c02Case{Item: it}})
+					}
+				}
+			}
+		}
+	}
+}
+
 func c09ReusedWriter(c *ev.Ctx) {
+	c09OptionChange(c)
 	ws := map[int]*lz4.Writer{}
 	grid := optionGrid(c.Thorough())
 	// visit the grid in an order that alternates formats and flags
